@@ -15,7 +15,7 @@ oracle evaluates the property on what the implementation itself printed:
        a call or step that never returns (`hang`) is a violation.
 """
 import re
-from .props import Prop, Run, register, COMMON_TRUSTED, eq_lines
+from .props import XLATE_TRUSTED, Prop, Run, register, COMMON_TRUSTED, eq_lines
 
 _hcache = {}
 
@@ -134,6 +134,6 @@ _runs = [Run('ring', quick=1500, thorough=12000, seeds_thorough=8),
          Run('ring-soak', quick=3000, thorough=40000, seeds_thorough=4)]
 
 register(Prop('C14', 'Mqtt.Properties.C14', ['ring'], runs=_runs, oracle=c14_oracle, nontrivial=ring_nontrivial,
-              spec_total=False, assumptions=RING_ASSUMPTIONS, trusted=RING_TRUSTED))
+              spec_total=False, assumptions=RING_ASSUMPTIONS, trusted=RING_TRUSTED + [XLATE_TRUSTED]))
 register(Prop('C15', 'Mqtt.Properties.C15', ['ring'], runs=_runs, oracle=c15_oracle, nontrivial=ring_nontrivial,
               spec_total=False, assumptions=RING_ASSUMPTIONS, trusted=RING_TRUSTED))
